@@ -238,6 +238,14 @@ type SafeFmtV struct {
 
 func (s SafeFmtV) SafeFormat(p redact.SafePrinter, verb rune) { s.run(p, verb) }
 
+// SVSafeFmtV: a SafeFormatter whose type is also marked SafeValue.
+type SVSafeFmtV struct {
+	run func(p redact.SafePrinter, verb rune)
+}
+
+func (s SVSafeFmtV) SafeFormat(p redact.SafePrinter, verb rune) { s.run(p, verb) }
+func (SVSafeFmtV) SafeValue()                                   {}
+
 type SafeFmtP struct {
 	run func(p redact.SafePrinter, verb rune)
 }
